@@ -116,6 +116,8 @@ def _build(ir, r, ctor=True):
             kw['skip_exc'] = tuple(_exc_cls(n) for n in ir[5])
         return glom.Coalesce(*[B(x) for x in ir[1]], **kw)
     if k == 'Call':
+        if len(ir) > 3 and ir[3]:
+            return glom.Call(B(ir[1]), args=tuple(B(x) for x in ir[2]), kwargs={name: B(x) for name, x in ir[3]})
         return glom.Call(B(ir[1]), args=tuple(B(x) for x in ir[2]))
     if k == 'Invoke':
         f = ir[1]
@@ -123,8 +125,20 @@ def _build(ir, r, ctor=True):
             inv = glom.Invoke.specfunc(B(f))          # the documented spelling of Invoke(Spec(f))
         else:
             inv = glom.Invoke(B(f)) if f[0] in ('Fn',) else glom.Invoke(glom.Spec(B(f)) if f[0] != 'Spec' else B(f))
-        for is_spec, ss in ir[2]:
-            inv = inv.specs(*[B(x) for x in ss]) if is_spec else inv.constants(*[B(x) for x in ss])
+        for tag, ss, kw in invoke_parts(ir[2]):
+            parent = inv
+            if tag == 1:
+                inv = inv.specs(*[B(x) for x in ss], **{name: B(x) for name, x in kw})
+            elif tag == 0:
+                inv = inv.constants(*[B(x) for x in ss], **{name: B(x) for name, x in kw})
+            else:
+                inv = inv.star(args=B(ss[0]) if ss else None, kwargs=B(kw[0][1]) if kw else None)
+            if kw and tag != 2:
+                # "every call returns a new spec": siblings derived from the same ancestors afterwards, giving the same keyword
+                # names other values, must not change this one
+                parent.constants(**{name: 'sibling' for name, _ in kw})
+                parent.specs(**{name: glom.Val('sibling') for name, _ in kw})
+                inv.constants(**{name: 'child' for name, _ in kw})
         return inv
     if k == 'Ref':
         return glom.Ref(ir[1]) if ir[2] is None else glom.Ref(ir[1], B(ir[2]))
@@ -206,6 +220,17 @@ def _exc_cls(name):
     return getattr(glom, name, None) or getattr(builtins, name)
 
 
+def invoke_parts(parts):
+    """[True|False, specs] (positional only) or ['S'|'C'|'*', specs, [[name, spec]...]] -> (tag 1|0|2, specs, keywords)"""
+    out = []
+    for p in parts:
+        if p[0] is True or p[0] is False:
+            out.append((1 if p[0] else 0, p[1], []))
+        else:
+            out.append(({'C': 0, 'S': 1, '*': 2}[p[0]], p[1], p[2]))
+    return out
+
+
 def olist(xs, f):
     return clist(f(x) for x in xs)
 
@@ -260,9 +285,11 @@ def spec_coq(ir):
         return '(SCoalesce %s %s %s %s %s)' % (olist(ir[1], C), opt(ir[2]), copt(ir[3], fn_coq), skip,
                                                copt(ir[5], lambda l: clist(cstr(x) for x in l)))
     if k == 'Call':
-        return '(SCall %s %s)' % (C(ir[1]), olist(ir[2], C))
+        kw = ir[3] if len(ir) > 3 and ir[3] else []
+        return '(SCall %s %s %s)' % (C(ir[1]), olist(ir[2], C), clist('(%s, %s)' % (cstr(n), C(x)) for n, x in kw))
     if k == 'Invoke':
-        return '(SInvoke %s %s)' % (C(ir[1]), clist('(%s, %s)' % (cbool(a), olist(b, C)) for a, b in ir[2]))
+        return '(SInvoke %s %s)' % (C(ir[1]), clist('(%s, %s, %s)' % (cnat(tag), olist(ss, C), clist('(%s, %s)' % (cstr(n), C(x)) for n, x in kw))
+                                                     for tag, ss, kw in invoke_parts(ir[2])))
     if k == 'Ref':
         return '(SRef %s %s)' % (cstr(ir[1]), opt(ir[2]))
     if k == 'Fill':
